@@ -794,7 +794,8 @@ def KState.resetInterrupted (s : KState) : M KState := do
     (fun st n => st.writeStepState n.key .failed none) s
   let st ← (s.nodes.filter fun n => n.key.kind = .step ∧ n.sstate = .checking).foldlM
     (fun st n => st.writeStepState n.key .pending none) st
-  (st.nodes.filter fun n => n.key.kind = .step ∧ !n.detached ∧ n.sstate = .failed).foldlM
+  -- detached FAILED steps too: they come back with their state when their creator is recycled
+  (st.nodes.filter fun n => n.key.kind = .step ∧ n.sstate = .failed).foldlM
     (fun st n => st.markStepPending n.key) st
 
 /-- An attached output of `step` that is neither BUILT nor VOLATILE. -/
